@@ -1,5 +1,6 @@
-from . import props_bf, props_tape
+from . import props_bf, props_tape, props_static
 
 CHECKS = {}
 CHECKS.update(props_bf.CHECKS)
 CHECKS.update(props_tape.CHECKS)
+CHECKS.update(props_static.CHECKS)
